@@ -77,6 +77,12 @@ def replay(case):
     kw = dict(operator_gevp=B, conv_eps=0, real=not cplx)
     try:
         # ---- Rayleigh consistency, upper bound, monotonicity (low-rank guess)
+        # (eigenvalue, eigentensor) must be a consistent pair for ANY target, also when later sweeps move away from it
+        for solver, sigma in (('eigh', w[0] - 1.0), ('eigh', 0.5 * (w[0] + w[-1])), ('eig', 0.5 * (w[0] + w[-1]) + 0.123 * width)):
+            for rep in (2, 4):
+                lam, t, it = evp.als(A, x0, repeats=rep, solver=solver, sigma=sigma, **kw)
+                if not consistent(lam, t, 'als:%s:anytarget' % solver):
+                    break
         for solver, sigma in (('eigh', w[-1] + 1.0), ('eig', w[-1] + 1.0), ('eig', w[0] - 1.0)):
             tag = 'als:%s' % solver
             dist = []
